@@ -265,8 +265,9 @@ class RoutinePlan:
         return list(roots.values())
 
 
-def _match_atom(m, atom, comp):
-    """Does component `comp` implement header atom `atom`? Returns None if yes, else a reason string."""
+def _match_atom(m, atom, comp, ages_exact=True):
+    """Does component `comp` implement header atom `atom`? Returns None if yes, else a reason string. With ages_exact=False
+    the ages read are not compared (the caller classifies an age difference itself: `_age_difference`)."""
     fields = []
     for fname in comp.fields:
         f = m.by_name.get(fname) or m.by_name.get(fname + "_all")
@@ -286,7 +287,7 @@ def _match_atom(m, atom, comp):
             return "relation/diagonal differs"
     ages = {f.age for f in fields}
     want = {"new": {"new"}, "old": {"old"}, "all": {"new", "old"}}[atom.age]
-    if ages != want or len(fields) != len(want):
+    if ages_exact and (ages != want or len(fields) != len(want)):
         return "ages read %s but atom is [%s]" % (sorted(f.name for f in fields), atom.age)
     if comp.cols is None or len(comp.cols) != len(order):
         return "columns consumed %s but index has %d columns" % (comp.cols, len(order))
@@ -299,6 +300,17 @@ def _match_atom(m, atom, comp):
     if not (comp.guarded or comp.cols[-1][0] == "iter") and len(order) > 0:
         return "fully restricted set is never tested for inhabitedness"
     return None
+
+
+def _age_difference(m, atom, comp):
+    """'widened' if the component reads every age the atom names and more (a superset of the matches: the join and the model
+    are the same, only `once` is lost), 'narrowed' otherwise (matches are lost)."""
+    ages = set()
+    for fname in comp.fields:
+        f = m.by_name.get(fname) or m.by_name.get(fname + "_all")
+        ages.add(f.age)
+    want = {"new": {"new"}, "old": {"old"}, "all": {"new", "old"}}[atom.age]
+    return "widened" if ages > want else "narrowed"
 
 
 def rule_plan(m, modules):
@@ -346,6 +358,21 @@ def rule_plan(m, modules):
                         hit = c
                         break
                     why.append(r)
+                if hit is None:
+                    # the right index in the right column order, only the ages read differ from the atom's label
+                    for c in unmatched:
+                        if _match_atom(m, a, c, ages_exact=False) is None:
+                            hit = c
+                            break
+                    if hit is not None:
+                        ok = False
+                        unmatched.remove(hit)
+                        diff = _age_difference(m, a, hit)
+                        res.bad("T-PLAN:atom:age-%s" % diff, where, "%s: premise atom `%s` is served from %s: %s" % (
+                            rt.name, a.raw, sorted(hit.fields),
+                            "more ages than its label (same matches found more than once)" if diff == "widened" else "not all ages of its label (matches are lost)"),
+                            {"atom": a.raw})
+                        continue
                 if hit is None:
                     ok = False
                     res.bad("T-PLAN:atom:not-implemented", where, "%s: premise atom `%s` is not implemented by any index access (%s)"
